@@ -19,8 +19,8 @@ import (
 	"github.com/jamespfennell/gtfs"
 )
 
-var c11Dates = []string{"20240101", "20240105", "20240110", "20240120", "20240131", "2024-01-10"}
-var c11DateNames = []string{"before", "start", "inside", "end", "after", "unparseable"}
+var c11Dates = []string{"20240101", "20240105", "20240110", "20240120", "20240131", "2024-01-10", ""}
+var c11DateNames = []string{"before", "start", "inside", "end", "after", "unparseable", "blank"}
 
 // c11RangeSets: the s1 range and the five probe dates; the second set sits on the days on
 // which zones east of UTC switch daylight saving time (the switch precedes UTC midnight there)
@@ -48,7 +48,7 @@ func c11Harness(maxRows int) Harness {
 		m := genStaticFeedN(c, false, baseCounts, nil, nil)
 		combo := c11ZoneDateCombos[c.Free("first_agency_zone_and_date_set", len(c11ZoneDateCombos))]
 		zone := combo.zone
-		dates := append(append([]string{}, c11RangeSets[combo.set]...), "2024-01-10")
+		dates := append(append([]string{}, c11RangeSets[combo.set]...), "2024-01-10", "")
 		m.t("agency.txt").set(0, "agency_timezone", zone)
 		cal := m.t("calendar.txt")
 		cd := m.t("calendar_dates.txt")
@@ -69,7 +69,16 @@ func c11Harness(maxRows int) Harness {
 		svc := []string{s1, s2, s3}
 		cal.set(0, "start_date", dates[1])
 		cal.set(0, "end_date", dates[3])
-		calOpt := c.Free("calendar", 6)
+		// the January dates get every calendar configuration and the whole date alphabet; the DST-switch
+		// and far-away date sets the three configurations with a range and the five well-formed dates
+		calOpt := 0
+		nDates := len(c11Dates)
+		if combo.set == 0 {
+			calOpt = c.Free("calendar", 6)
+		} else {
+			calOpt = []int{0, 4, 5}[c.Free("calendar", 3)]
+			nDates = 5
+		}
 		dup := false
 		switch calOpt {
 		case 0:
@@ -100,7 +109,7 @@ func c11Harness(maxRows int) Harness {
 		outside, both := false, false
 		for r := 0; r < nRows; r++ {
 			sv := c.Free(fmt.Sprintf("ex[%d].service", r), 3)
-			d := c.Free(fmt.Sprintf("ex[%d].date", r), len(c11Dates))
+			d := c.Free(fmt.Sprintf("ex[%d].date", r), nDates)
 			ty := c.Free(fmt.Sprintf("ex[%d].type", r), 3)
 			row := append([]string{}, proto...)
 			cd.Rows = append(cd.Rows, row)
@@ -191,7 +200,7 @@ func init() {
 	register(&Check{
 		ID:    "C11",
 		Level: "model_checking",
-		Rule: "full product: calendar.txt {s1, empty, absent, s1+s2, s1 twice, s1 as a one-day service}; service ids beginning with #; x 0..2 (thorough 0..3) exception rows over 3 services x 6 dates (before/start/inside/end/after the s1 range, unparseable) x 3 exception types x 13 (zone of the first agency, date set) combinations: New_York, London, unknown, Sydney, Lord_Howe, Japan, EST5EDT (names without a slash) with January dates; New_York, Sydney, Lord_Howe with the southern DST switch days; New_York, Sydney, Japan with dates in the years 1, 1677, 2262 and 9999 x map iteration starts 0, 1, 2 at every library range; " +
+		Rule: "full product: calendar.txt {s1, empty, absent, s1+s2, s1 twice, s1 as a one-day service}; service ids beginning with #; x 0..2 (thorough 0..3) exception rows over 3 services x 7 dates (before/start/inside/end/after the s1 range, unparseable, blank) x 3 exception types x 13 (zone of the first agency, date set) combinations: New_York, London, unknown, Sydney, Lord_Howe, Japan, EST5EDT (names without a slash) with January dates; New_York, Sydney, Lord_Howe with the southern DST switch days; New_York, Sydney, Japan with dates in the years 1, 1677, 2262 and 9999 x map iteration starts 0, 1, 2 at every library range; " +
 			"non-trivial = distinct archives with at least one exception row; oracle = reference merge (all admissible readings) + direct invariants (unique ids, start <= exception <= end)",
 		Assumptions: []string{"two calendar rows with one id: either row may win", "an exception row with an unsupported type creates nothing, adds no date, and may or may not widen an existing range"},
 		Scenarios: func(tier string) []*Scenario {
